@@ -17,8 +17,8 @@ ASSUMPTIONS = ["single consumer: no access is issued while another one is outsta
                "the library asserts 'Destroy of pending future'); the check rejects such ops",
                "needs the guarded hook gen_block in generator::next_sync (hooks/gen.patch); without it blocked accesses are detected by a 400 ms timeout"]
 
-STYLES0 = [0, 1, 2, 3, 4, 5]
-STYLES1 = [0, 2, 3, 4, 5]
+STYLES0 = [0, 1, 2, 3, 4, 5, 6]
+STYLES1 = [0, 2, 3, 4, 5, 6]
 
 
 def gen_script(rng, ha, n, pend_p, end_kind):
@@ -82,7 +82,7 @@ def close_case(c):
     """used while shrinking: append the completions an outstanding access still needs, so that the oracle's
     closed-case rule (no trailing Pending) stays meaningful on sub-sequences"""
     ops = [list(o) for o in c.ops]
-    if not ops or not ops[0] or ops[0][0] != 0 or len(ops[0]) % 2 != 1:
+    if c.engine.startswith("genc") or not ops or not ops[0] or ops[0][0] != 0 or len(ops[0]) % 2 != 1:
         return c
     ha = c.engine == "gen1"
     sc = ops[0][1:]
@@ -91,7 +91,7 @@ def close_case(c):
     live = True
     for o in ops[1:]:
         if not o or not live: continue
-        if o[0] == 1 and len(o) == 3 and waiting is None and 0 <= o[1] <= 5 and not (ha and o[1] == 1):
+        if o[0] == 1 and len(o) == 3 and waiting is None and 0 <= o[1] <= 6 and not (ha and o[1] == 1):
             if not sim.ended:
                 kind, k = sim.advance()
                 waiting = k if kind == "pend" else None
@@ -182,9 +182,13 @@ def gen(seed, tier):
                         def random(self): return 0.99
                         def randint(self, a, c): return rng.randint(a, c)
                     cases.append(gen_case(R(), eng, "x%d" % b, styles, sc, 7, None, False)); b += 1
+    # smoke engine: the same bodies with the frame in a reusable_storage
+    for k, sc in enumerate(FIXED_SCRIPTS):
+        cases.append(gen_case(rng, "gens", "s%d" % k, STYLES0, sc, 8, rng.choice([None, 1, 2]), False))
     n = 260 if quick else 3500
     for i in range(n):
         eng = "gen0" if i % 2 == 0 else "gen1"
+        if i % 10 == 9: eng = "gens"
         ha = eng == "gen1"
         styles_all = STYLES1 if ha else STYLES0
         mode = rng.random()
@@ -226,4 +230,56 @@ def signature(case, impl_obs, model_obs):
     return "%s:%s" % (case.engine, kind)
 
 
-PARTS = [{"name": "vm_gen", "harness": "vm_gen.cpp", "gen": gen, "timeout_case": 3}]
+def gen_ctl(seed, tier):
+    """engine genc: consumer thread + completer thread under the controlled-schedule driver; every case carries a
+    schedule; the same (script, accesses) pair is run under several schedules"""
+    rng = random.Random(seed * 611953 + 131)
+    quick = tier == "quick"
+    cases = []
+    b = 0
+    scripts0 = [
+        [1, 1, 3, 1, 1, 2, 3, 2, 3, 3, 1, 3],
+        [3, 1, 6, 101, 1, 1, 3, 2, 4, 3],
+        [6, 101, 3, 1, 1, 1, 6, 102, 3, 2, 1, 2, 7, 0, 3, 3],
+        [3, 1, 3, 2, 5, 0],
+        [1, 5, 2, 9, 3, 1, 1, 6],
+    ]
+    scripts1 = [
+        [8, 0, 3, 1, 1, 1, 9, 0, 3, 2, 1, 3],
+        [3, 1, 8, 0, 9, 0, 9, 0, 4, 3],
+    ]
+    def one(eng, sc, styles, nacc, nsched):
+        nonlocal b
+        ha = eng == "genc1"
+        ops = [[0] + sc]
+        if 7 in styles and not ha:
+            k = rng.randint(0, 2)
+            for _ in range(k):
+                ops.append([1, rng.choice([y for y in styles if y != 7] or [1]), 0])
+            ops.append([1, 7, 0])
+            ops.append([1, rng.choice([0, 2, 3]), 0])        # End is sticky after the loop
+        else:
+            for _ in range(nacc):
+                ops.append([1, rng.choice(styles), rng.randint(100, 140) if ha else 0])
+        ops.append([3])
+        for _ in range(nsched):
+            sched = [9] + [rng.randint(0, 3) for _ in range(rng.randint(10, 80))]
+            cases.append(Case(eng, "c%d" % b, ops + [sched])); b += 1
+    for sc in scripts0:
+        for styles in ([0], [1], [2], [3], [4], [5], [6], [7], [0, 1, 2, 3, 4, 5, 6], [7, 0, 3]):
+            one("genc0", sc, styles, 7, 2 if quick else 12)
+    for sc in scripts1:
+        for styles in ([0], [2], [3], [4], [6], [0, 2, 3, 4, 5, 6]):
+            one("genc1", sc, styles, 6, 2 if quick else 12)
+    n = 60 if quick else 800
+    for i in range(n):
+        eng = "genc0" if i % 2 == 0 else "genc1"
+        ha = eng == "genc1"
+        sc = gen_script(rng, ha, rng.randint(1, 9), rng.choice([0.15, 0.3, 0.45]), rng.choice([0, 0, 1, 2]))
+        styles = rng.choice([STYLES1 if ha else STYLES0 + [7], [0, 3], [2, 4], [1, 6] if not ha else [6, 0]])
+        one(eng, sc, styles, rng.randint(2, 9), 1 if quick else 3)
+    return cases
+
+
+PARTS = [{"name": "vm_gen", "harness": "vm_gen.cpp", "gen": gen, "timeout_case": 3},
+         {"name": "ctl_genc", "harness": "vm_genc.cpp", "gen": gen_ctl, "timeout_case": 10}]
